@@ -50,11 +50,12 @@ fn paste_order(files: &[(String, Vec<Line>)], skip: &dyn Fn(&str) -> bool) -> Ve
         for (li, l) in files[fi].1.iter().enumerate() {
             match l {
                 Line::Dir(d, ops) if d == ".include" => {
-                    if let Some(Opd::S(name)) = ops.first() {
-                        if skip(name) {
+                    if let Some(Opd::S(path)) = ops.first() {
+                        let name = crate::paths::resolve(&files[fi].0, path);
+                        if skip(&name) {
                             continue;
                         }
-                        if let Some(k) = files.iter().position(|(n, _)| n == name) {
+                        if let Some(k) = files.iter().position(|(n, _)| *n == name) {
                             walk(k, files, skip, out, depth + 1);
                         }
                     }
@@ -72,13 +73,14 @@ fn subtree(files: &[(String, Vec<Line>)], root: &str) -> Vec<String> {
     let mut v = vec![root.to_string()];
     let mut k = 0;
     while k < v.len() {
-        if let Some((_, ls)) = files.iter().find(|(n, _)| *n == v[k]) {
+        if let Some((host, ls)) = files.iter().find(|(n, _)| *n == v[k]) {
             for l in ls {
                 if let Line::Dir(d, ops) = l {
                     if d == ".include" {
-                        if let Some(Opd::S(n)) = ops.first() {
-                            if !v.contains(n) {
-                                v.push(n.clone());
+                        if let Some(Opd::S(p)) = ops.first() {
+                            let n = crate::paths::resolve(host, p);
+                            if !v.contains(&n) {
+                                v.push(n);
                             }
                         }
                     }
@@ -99,7 +101,7 @@ impl C15 {
         let mut reinclude_site: Option<(usize, usize)> = None;
         if let Some((host, target)) = &case.reinclude {
             if let Some(h) = files.iter().position(|(n, _)| n == host) {
-                files[h].1.push(Line::Dir(".include".into(), vec![Opd::S(target.clone())]));
+                files[h].1.push(Line::Dir(".include".into(), vec![Opd::S(crate::paths::relpath(host, target))]));
                 reinclude_site = Some((h, files[h].1.len() - 1));
                 ctx.label(if host == target { "fault:self-include" } else { "fault:cyclic-include" });
             }
@@ -176,7 +178,7 @@ impl C15 {
         if let Some((name, f)) = &case.fault {
             for (fi, (_, ls)) in files.iter().enumerate() {
                 for (li, l) in ls.iter().enumerate() {
-                    if matches!(l, Line::Dir(d, ops) if d == ".include" && ops.first() == Some(&Opd::S(name.clone()))) {
+                    if matches!(l, Line::Dir(d, ops) if d == ".include" && matches!(ops.first(), Some(Opd::S(p)) if crate::paths::resolve(&files[fi].0, p) == *name)) {
                         expected_err_sites.push((
                             fi,
                             li,
@@ -301,6 +303,9 @@ impl C15 {
         let dir = cli::scratch("c15", crate::runner::next_serial());
         let _ = std::fs::create_dir_all(dir.join("sub"));
         for (n, t) in texts {
+            // every directory that holds a file also has a sub-directory `sub` (for paths spelled `sub/../x`)
+            let d = dir.join(crate::paths::dir_of(n));
+            let _ = std::fs::create_dir_all(d.join("sub"));
             if fault.as_ref().map(|f| f.0 == *n).unwrap_or(false) {
                 continue; // missing file
             }
@@ -384,9 +389,17 @@ impl Prop for C15 {
     fn gen(ch: &mut Choices, tier: Tier) -> Option<Case> {
         let base = <c13::C13 as Prop>::gen(ch, tier)?;
         let lines = base.lines;
-        let files = gen::split_include(&lines, ch, if tier == Tier::Thorough { 5 } else { 4 });
+        let mut files = gen::split_include(&lines, ch, if tier == Tier::Thorough { 6 } else { 5 });
         if files.len() < 2 {
             return None;
+        }
+        // one tree in four lives in several directories; half of those get two files with the same
+        // base name in different directories (the same path text then names different files)
+        if ch.chance(1, 4) {
+            gen::place_in_dirs(&mut files, ch, false);
+            if ch.chance(1, 2) {
+                gen::clash_basenames(&mut files, ch);
+            }
         }
         let mut fault = None;
         let mut reinclude = None;
@@ -421,6 +434,6 @@ impl Prop for C15 {
     }
 
     fn show(case: &Case) -> Value {
-        json!({"files": case.files.iter().map(|(n, l)| (n.clone(), render_plain(l).text)).collect::<Vec<_>>(), "fault": case.fault, "reinclude": case.reinclude, "via_cli": case.via_cli, "spelling": case.spelling})
+        json!({"files": case.files.iter().map(|(n, l)| (n.clone(), render_plain(l).text)).collect::<Vec<_>>(), "fault": case.fault, "reinclude": case.reinclude, "via_cli": case.via_cli, "spelling": case.spelling, "names": case.files.iter().map(|f| f.0.clone()).collect::<Vec<_>>()})
     }
 }
